@@ -250,3 +250,13 @@ func RealWithdraw(hashes []common.Uint256, ins []*common2.Input, outs []*common2
 }
 
 func PlainOut(to common.Uint168, v common.Fixed64) *common2.Output { return plainOut(to, v) }
+
+// ClaimNode: council member (version CurrentCRClaimDPoSNodeVersion) or elected next member
+// (NextCRClaimDPoSNodeVersion) claims the DPoS node key of node.
+func ClaimNode(member, node *Key, version byte) Tx {
+	p := &payload.CRCouncilMemberClaimNode{NodePublicKey: node.Pub, CRCouncilCommitteeDID: member.DID}
+	buf := new(bytes.Buffer)
+	must(p.SerializeUnsigned(buf, payload.CurrentCRClaimDPoSNodeVersion))
+	p.CRCouncilCommitteeSignature = member.Sign(buf.Bytes())
+	return newTx(common2.CRCouncilMemberClaimNode, version, p, nil, nil, prog(member))
+}
